@@ -3,7 +3,7 @@ SPECIFICATION TraceSpec
 CONSTANTS
   Stores = {"s1", "s2", "s3"}
   Txns = {"t1", "t2", "t3", "t4", "t5", "t6", "t7", "t8", "t9", "t10", "t11", "t12"}
-  Findings = {"copyReadsPassive", "staleSnapshot", "logFlagLost", "ffNotIdempotent", "createFailsOnPassive", "failoverNotDurable"}
+  Findings = {"copyReadsPassive", "staleSnapshot", "logFlagLost", "ffNotIdempotent", "createFailsOnPassive", "failoverNotDurable", "copyFailsOnDroppedStore"}
   NoR = ""
   MaxLid = 0
   MaxR = 0
